@@ -415,6 +415,16 @@ func c01Run(o *Out, child bool) {
 							o.known("PointerShapedAggregate", skey)
 							continue
 						}
+						// the values of the sweep draw their map keys from the shared strings: the one finding that is a
+						// predicate on the value alone (a map key that is not valid UTF-8) is recognised here too
+						if c01HasInvalidUTF8MapKey(v, 0) && what == "output differs" {
+							cg, ok1 := tgCanon(got)
+							cw, ok2 := tgCanon(want)
+							if ok1 && ok2 && c01SortedMembers([]byte(cg)) != "" && c01SortedMembers([]byte(cg)) == c01SortedMembers([]byte(cw)) {
+								o.known("MapKeyInvalidUTF8Order", skey) // the same members in another order
+								continue
+							}
+						}
 					} else if cls := c01Classify(t, v, what, got, want); cls != "" {
 						o.known(cls, fmt.Sprintf("%s %s %s", t.String(), c01ReachName[how], variant.name))
 						continue
@@ -456,9 +466,14 @@ func clipN(s string, n int) string {
 	return s
 }
 
-func runC01Child(o *Out) { c01Run(o, true) }
+func runC01Child(o *Out) {
+	tgSeveralIllFormedKeys = true
+	c01Run(o, true)
+}
 
 func runC01(o *Out) {
+	tgSeveralIllFormedKeys = true
+
 	// the generated values can crash a broken encoder: run in a child so that a crash is reported with its case
 	self, _ := os.Executable()
 	for name := range c01Probes() {
